@@ -78,6 +78,7 @@ type Engine struct {
 	maxSteps  int
 	timeout   int
 	solverBin string
+	cur       *State // the state this worker is executing
 }
 
 func (e *Engine) addOblig(ob Oblig) {
@@ -725,6 +726,7 @@ func (e *Engine) nilCheck(st *State, f *Frame, in ssa.Instruction, p Value) bool
 // ---------- main loop ----------
 
 func (e *Engine) run(st *State) {
+	e.cur = st
 	defer func() {
 		if r := recover(); r != nil {
 			if h, ok := r.(hardErr); ok {
